@@ -19,7 +19,7 @@ BASE_OPTIONS = {
 
 def generate(seed, prop, h, tier, jobs=(2, 3), vertex_p=0.4, fault_p=0.25, fault_seams=("solve",),
              buggify_sites=("round2_skip", "meat_lower"), buggify_p=0.15, threshold_p=0.4, world_p=0.06,
-             profile_bias=None, horizons=None):
+             profile_bias=None, horizons=None, twin_p=0.25):
     rng = core.Rng(seed, prop, h)
     wl = rng.sub("workload")
     profile = workload.swarm_profile(wl)
@@ -30,8 +30,21 @@ def generate(seed, prop, h, tier, jobs=(2, 3), vertex_p=0.4, fault_p=0.25, fault
     n = wl.randrange(jobs[0], jobs[1] + 1)
     js = []
     for i in range(n):
-        j = workload.random_job(wl, profile, world_p=world_p, overrides_p=threshold_p,
-                                horizon=wl.pick(horizons) if horizons else None)
+        if js and wl.chance(twin_p):
+            # same country right after itself with ONE option family changed (same horizon): the adjacency in
+            # which state kept from the previous run of that country (caches keyed too coarsely) would show
+            j = workload.clone(js[-1])
+            table = workload.GLOBAL_VALUES if j["iso3"] == "WOR" else workload.COUNTRY_VALUES
+            fam = wl.pick(["shutoff", "shutoff", "waste", "nutrition", "scenario", "meat_strategy", "ratio_stocks_untouched", "cull"])
+            vals = [v for v in table[fam] if v != j["options"].get(fam)]
+            if vals:
+                j["options"][fam] = wl.pick(vals)
+            if wl.chance(0.5):
+                for k in [k for k in j["options"] if k not in workload.FAMILIES and k != "NMONTHS"]:
+                    del j["options"][k]  # and without the numeric overrides of the previous run
+        else:
+            j = workload.random_job(wl, profile, world_p=world_p, overrides_p=threshold_p,
+                                    horizon=wl.pick(horizons) if horizons else None)
         j["tag"] = i
         js.append(j)
     mode = "vertex" if rng.sub("vertex").chance(vertex_p) else "cbc"
